@@ -8,6 +8,7 @@ holds, `Err` leaves the state untouched, `Ok` changes exactly the documented fie
 -/
 import RubatoModel.Fft
 import RubatoProofs.Lemmas.RatBridge
+import RubatoProofs.Lemmas.FormulaTie
 import Mathlib.Tactic.FieldSimp
 
 set_option linter.unusedSectionVars false
@@ -134,4 +135,30 @@ theorem relative_exact (x orig maxRel : ℚ) (ho : 0 < orig) (hm : 0 < maxRel) :
 example : ratioInRange (3/10 : ℚ) (1/10) 3 = true := by
   rw [ratioInRange_exact _ _ _ (by norm_num) (by norm_num)]; norm_num
 
+end Rubato.C12
+
+namespace Rubato.C12
+open Rubato Rubato.Gen
+
+/-- the range test of the model is, for every arithmetic instance, literally the condition regenerated from each of the
+four `set_resample_ratio` bodies on this run (translator item G7) -/
+theorem range_test_is_the_sources {ρ : Type} [RNum ρ] (new orig maxRel : ρ) :
+    ratioInRange new orig maxRel = Formulas.fastIn_range_test new orig maxRel ∧
+    ratioInRange new orig maxRel = Formulas.fastOut_range_test new orig maxRel ∧
+    ratioInRange new orig maxRel = Formulas.sincIn_range_test new orig maxRel ∧
+    ratioInRange new orig maxRel = Formulas.sincOut_range_test new orig maxRel :=
+  ⟨rfl, rfl, rfl, rfl⟩
+
+end Rubato.C12
+
+namespace Rubato.C12
+/-- … and each regenerated formula reads exactly the struct fields the model feeds it (guards against wrong-field slips) -/
+theorem formulas_read_the_expected_fields_C12 :
+    (Rubato.Gen.Formulas.formulaParams.map (·.1)).length = 24 ∧
+    Rubato.Gen.Formulas.formulaParams.lookup "fastIn_output_delay" = some ["resample_ratio"] ∧
+    Rubato.Gen.Formulas.formulaParams.lookup "fastOut_output_delay" = some ["resample_ratio"] ∧
+    Rubato.Gen.Formulas.formulaParams.lookup "sincIn_output_delay" = some ["sinc_len", "resample_ratio"] ∧
+    Rubato.Gen.Formulas.formulaParams.lookup "sincOut_output_delay" = some ["sinc_len", "resample_ratio"] := by
+  rw [Rubato.FormulaTie.formulas_read_the_expected_fields]
+  decide
 end Rubato.C12
